@@ -12,6 +12,7 @@ let () =
     | "endpoint" -> Lvl_endpoint.handle dbg
     | "session" -> Lvl_session.handle dbg
     | "synctest" -> Lvl_synctest.handle dbg
+    | "spectator" -> Lvl_spectator.handle dbg
     (* LEVELS: one line per level, keep this marker *)
     | _ -> (fun _ -> "badlevel") in
   (try
